@@ -90,3 +90,12 @@ package util
 //@   props C15
 //@   requires c != nil
 //@   ensures [failed-save-leaves-no-archive] result1 != nil && result0 != "" ==> GremovedPaths[result0]
+
+// ---- C04: coalescing never links a table of the chart's stored defaults into the result: the table
+// that coalesceValues merges key by key is a private deep copy of c.Values (or the copy failed, which
+// is reported through printf and is the only case in which the original is used)
+
+//@ func coalesceValues
+//@   props C04
+//@   requires c != nil && c.Metadata != nil && v != nil
+//@   loop 1 invariant [merges-from-a-private-copy-of-the-defaults] fresh(#range) || (GcopyCount > old(GcopyCount) && GcopyLastFailed)
